@@ -485,7 +485,19 @@ class _Reqs2:
             return ok, why
         P, W = self.P, self.W
         for (cp, cbb) in P.callers("roughenough::grease::Grease::new"):
-            a = W.ev(cp).call_args(cbb)[0]
+            a = W.expand(W.ev(cp).call_args(cbb)[0])
+            # the percentage read from the configuration here, or passed in by the (only) caller(s) who read it there
+            cur, cfn_ = a, cp
+            for _ in range(3):
+                if isinstance(cur, tuple) and cur and cur[0] == "param" and cur[1] == cfn_:
+                    cs2 = P.callers(cfn_)
+                    vals2 = {W.expand(W.ev(c2).call_args(b2)[cur[2] - 1]) for (c2, b2) in cs2 if len(W.ev(c2).call_args(b2)) >= cur[2]}
+                    if len(vals2) == 1 and cs2:
+                        cfn_ = cs2[0][0]
+                        cur = next(iter(vals2))
+                        continue
+                break
+            a = values.strip_payload(cur) if isinstance(cur, tuple) else cur
             if not (is_call(a) and a[1].endswith("ServerConfig::fault_percentage")):
                 return False, "Grease::new is called with %s" % values.fmt(a)
         return True, "fault_percentage <= 50 validated before spawn; Grease::new(config.fault_percentage())"
